@@ -594,7 +594,7 @@ def sortCore (len : Nat) (callable : Bool) (cmp : SortCmp) : M σ Ret := fun s =
 def pop : M σ Ret := do let len ← readLen O; popCore O len
 def shift : M σ Ret := do let len ← readLen O; shiftCore O len
 def unshift (items : List Val) : M σ Ret := do let len ← readLen O; unshiftCore O len items
-def reverse : M σ Ret := do let len ← readLen O; reverseCore O len
+def reverse : M σ Ret := do let len ← readLen O; reverseCore O len      -- 15.4.4.8 step 7: return O
 
 /-- §15.4.4.10: 3 len; 5 ToInteger(start); 7 ToInteger(end) unless end is undefined -/
 def slice (args : List Val) : M σ Ret := do
@@ -631,6 +631,10 @@ def join (args : List Val) : M σ Ret := do
       pure (args.set 0 (.str (E.ts p))))            -- 5: sep = ToString(separator)
   joinCore O E len pargs
 
+/-- §15.4.4.2 toString: "the result of calling the [[Call]] internal method of func [= join] providing array as the this
+    value and an empty arguments list" -/
+def toStringS (_args : List Val) : M σ Ret := join O E []
+
 /-- §15.4.4.16–22: 2–3 len, then 4 "if IsCallable(callbackfn) is false, throw a TypeError" -/
 def every (callable : Bool) : M σ Ret := do let len ← readLen O; everyCore O len callable
 def some_ (callable : Bool) : M σ Ret := do let len ← readLen O; someCore O len callable
@@ -658,5 +662,27 @@ def specOps (E : Env) : Ops St where
   lenRead := scriptedLenRead (fun o => get o .length)
     (scriptedConv (put E) delete (fun o => toUint32 E (get o .length)))
   conv := scriptedConv (put E) delete (fun o => toUint32 E (get o .length))
+  thisRaw := fun s => s.thisRaw
+
+/-- §15.4.5.1 step 3.c–d on an object-valued Desc.[[Value]]: newLen = ToUint32(Desc.[[Value]]) and then
+    "if newLen is not equal to ToNumber(Desc.[[Value]]), throw a RangeError" — two conversions of the object -/
+def stDefine (E : Env) (k : Key) (d : Desc) (throw : Bool) : M St Bool := fun s =>
+  match k, d.v, s.o.isArr with
+  | .length, some (.obj id), true =>
+    ((specOps E).conv (.obj id) >>= fun p1 =>
+      (specOps E).conv (.obj id) >>= fun p2 =>
+        let newLen := toUint32 E p1                                                -- 3.c
+        if valEqNat (toNumber E p2) newLen                                         -- 3.d
+        then liftObj (defineOwn E .length { d with v := some (.int newLen) } throw)
+        else M.throw .range) s
+  | _, _, _ => liftObj (defineOwn E k d throw) s
+
+/-- §8.12.5 [[Put]] with a value that may be an object -/
+def stPut (E : Env) (k : Key) (v : Val) (throw : Bool) : M St Unit := fun s =>
+  match k, v, s.o.isArr with
+  | .length, .obj id, true =>
+    if !canPut s.o .length then (if throw then .err .type s else .ok () s)           -- 1
+    else (do let _ ← stDefine E .length { v := some (.obj id) } throw; pure ()) s    -- 3
+  | _, _, _ => liftObj (put E k v throw) s
 
 end OttoVerif.C08.Spec
